@@ -379,6 +379,12 @@ ARGS_LOOP:
 					switch currentProgramNode.unknownMode {
 					case Pass, Warn:
 						currentProgramNode.ChildText = append(currentProgramNode.ChildText, iterator.Value())
+					case Fail:
+						// The unknown mode that decides is the one of the command the parse ends in.
+						// If that command passes unknown options through, don't lose the ones given before it.
+						if completionMode == "" {
+							currentProgramNode.ChildText = append(currentProgramNode.ChildText, iterator.Value())
+						}
 					}
 					continue
 				}
